@@ -3,6 +3,8 @@ package sshagent
 import (
 	"io"
 	"log"
+	"os"
+	"strings"
 	"testing"
 	"time"
 
@@ -31,7 +33,7 @@ func TestC43(t *testing.T) {
 		m.Inconclusive("harness key material unusable: " + err.Error())
 		return
 	}
-	m.Rule("seq: case = sequence of <=30 operations (Add with lifetime/confirm/unknown constraint, re-add, Remove present/absent/garbage, RemoveAll, Lock/Unlock right/wrong(prefix, extension, one-byte, zeros)/double, List, Sign/SignWithFlags{0,2,4,reserved}, sign absent key, Signers, held client signers, Extension) over <=5 keys of {rsa1024, rsa2048, dsa, ecdsa256/384/521, ed25519 x2, 6 certificates}; index fixes motif (none, expiry at T+L+{-1s,-1ns,0,+1ns,+1s}, swap-delete, lock, re-add, stale signer), access mode (direct, serial client, pipelined client, mixed on one keyring) and probe; every result is judged by the abstract agent (ref/agentmodel), signatures by a standard-library verifier; distinct = (op, path, locked, target key status, outcome). " +
+	m.Rule("seq: case = sequence of <=30 generated operations plus final cross-path checks (Add with lifetime/confirm/unknown constraint, re-add, Remove present/absent/garbage, RemoveAll, Lock/Unlock right/wrong(prefix, extension, one-byte, zeros)/double, List, Sign/SignWithFlags{0,2,4,reserved}, sign absent key, Signers, held client signers, Extension) over <=5 keys of {rsa1024, rsa2048, dsa, ecdsa256/384/521, ed25519 x2, 6 certificates}; index fixes motif (none, expiry at T+L+{-1s,-1ns,0,+1ns,+1s}, swap-delete, lock, re-add, stale signer), access mode (direct, serial client, pipelined client, mixed on one keyring) and probe; every result is judged by the abstract agent (ref/agentmodel), signatures by a standard-library verifier; distinct = (op, path, locked, target key status, outcome). " +
 		"frames: 1-4 request frames (valid, truncated, type sweep 0..255, garbage body, mutated, hostile inner lengths, hostile constraints, inconsistent key material, RSA bounds, outer length 0 / >16MiB / lying) into ServeAgent on a fresh or loaded, locked or unlocked keyring; judged: no panic, one reply per complete request or close, reply type fits request type, unknown types -> SSH_AGENT_FAILURE, locked agent discloses/accepts nothing, oversized lengths refused without reading the body. " +
 		"conc: 3-4 clients x <=10 ops over <=2 keys (direct goroutines / one connection per client / one shared pipelined client / mixed), round-synchronised (overlap forced) or free; history stamped with one atomic counter, checked with porcupine against the same model. " +
 		"cross: ssh-add (add -t -c, -d, -D, -x, -X, -l, -L, -T) against the Go ServeAgent with a recording agent in between; Go client sequences against ssh-agent -D.")
@@ -39,7 +41,11 @@ func TestC43(t *testing.T) {
 	m.Assume("signature verification uses crypto/rsa, crypto/ecdsa, crypto/dsa, crypto/ed25519 on key objects parsed by the harness from ssh-keygen output; public blobs are ssh-keygen's; testing/synctest provides the clock read by the keyring")
 	m.Assume("OpenSSH 9.2 ssh-add / ssh-agent are the foreign implementations; a disagreement between OpenSSH's and the harness's signature verification is reported as inconclusive")
 
+	only := os.Getenv("VERIF_C43_STREAMS")  // development aid: run a subset of the streams (gates will then fail)
 	timed := func(name string, fn func()) { // wall time per stream is evidence only, never a verdict
+		if only != "" && !strings.Contains(","+only+",", ","+name+",") {
+			return
+		}
 		t0 := time.Now()
 		fn()
 		m.Count("wall_ms:"+name, int(time.Since(t0).Milliseconds()))
@@ -65,6 +71,7 @@ func TestC43(t *testing.T) {
 	m.Gate("add_frames_decoded", 1000, "client add requests decoded by the harness's own wire reader")
 	m.Gate("sequences_completed", 2000, "sequences that ran to their final cross-path check")
 	m.Gate("oversize_prefix_cases", 100, "outer length above the 16 MiB cap")
+	m.Gate("zero_length_prefix_cases", 20, "outer length 0")
 	m.Gate("unknown_type_requests", 1000, "request type bytes outside the protocol")
 	m.Gate("locked_requests_judged", 2000, "requests answered by a locked agent whose passphrase the generator does not know")
 	m.Gate("valid_adds_accepted", 100, "harness-encoded valid add requests accepted (the mutation bases are valid)")
